@@ -1,5 +1,5 @@
 (* CorrSys.v — correspondence entry point for sequential histories on the system model. *)
-From Verif Require Import Bytes Keys Consts Spec Lsm Compact Iter Sys Corr.
+From Verif Require Import Bytes Keys Consts Spec Lsm Compact Iter Sys SysTree Corr.
 Open Scope N_scope.
 
 Inductive case :=
@@ -35,7 +35,7 @@ Fixpoint dedup (l : list N) (acc : list N) : list N :=
 Definition run_case (c : case) : bool * list N :=
   match c with
   | Hist managed detect nkeep nlevels next ops =>
-      let '(bad, _) := exec_strict (init_sys managed detect nkeep (N.to_nat nlevels) next) ops 0 in
+      let '(bad, _) := exec_tree (init_sys managed detect nkeep (N.to_nat nlevels) next) ops 0 in
       match bad with
       | None => (true, dedup (flat_map op_tags ops) [])
       | Some (i, code) => (false, [1000 + i; 100000 + code])
